@@ -33,7 +33,7 @@ class Mon(object):
 def gen_matrix(rng, n):
     kind = str(rng.choice(['normal', 'zero_pivot', 'zero_minor', 'tiny_pivot',
                            'perm_dd', 'row_scaled', 'integer', 'scaled',
-                           'moment', 'tiny_scale']))
+                           'moment', 'tiny_scale', 'graded_pivot']))
     A = rng.normal(size=(n, n))
     if kind == 'zero_pivot' and n > 1:
         A[0, 0] = 0.0
@@ -65,6 +65,23 @@ def gen_matrix(rng, n):
         A = (B * w[:, None]).T @ B
     elif kind == 'tiny_scale':
         A = A * 10.0 ** rng.uniform(-16, -11)
+    elif kind == 'graded_pivot' and n > 2:
+        # in column k the diagonal entry is zero or tiny, one row below holds
+        # the pivot to take and a *later* row an entry that is bigger than
+        # the diagonal but far smaller than that pivot
+        k = int(rng.integers(0, n - 2))
+        if k:
+            A[:k, :] = 0.0
+            A[:, :k] = 0.0
+            A[:k, :k] = np.diag(rng.uniform(0.5, 2.0, size=k))
+        tiny = 0.0 if rng.random() < 0.4 else 10.0 ** rng.uniform(-13, -5)
+        r1 = int(rng.integers(k + 1, n - 1))
+        r2 = int(rng.integers(r1 + 1, n))
+        A[k:, k] = 0.0
+        A[k, k] = tiny
+        A[r1, k] = float(rng.choice([-1, 1])) * rng.uniform(0.5, 2.0)
+        A[r2, k] = float(rng.choice([-1, 1])) * max(
+            10.0 ** rng.uniform(-9, -3), 10.0 * tiny)
     return kind, A
 
 
